@@ -2,7 +2,7 @@
    This file holds ONLY the property theorems (each closed by `exact <lemma>`) and their Print Assumptions. *)
 From Coq Require Import ZArith List Bool.
 From Verif Require Import X86.X86Model X86.X86Proofs X86.X86Denote X86.X86DenoteProofs X86.X86DbCheck.
-From Verif Require Import X86.X86TablesSpec X86.X86Unique X86.X86UniqueProofs X86.X86JudgeProofs X86.X86LengthProofs X86.X86Choice X86.X86EncProofs X86.X86PrefixOrder X86.X86Reencode X86.X86FrameProofs X86.X86Shortest X86.X86Leg32.
+From Verif Require Import X86.X86TablesSpec X86.X86Unique X86.X86UniqueProofs X86.X86JudgeProofs X86.X86LengthProofs X86.X86Choice X86.X86EncProofs X86.X86PrefixOrder X86.X86Reencode X86.X86FrameProofs X86.X86Shortest X86.X86Leg32 X86.X86StreamProofs.
 From VerifGen Require Import IsaX86Db X86Tables.
 Import ListNotations.
 Local Open Scope Z_scope.
@@ -679,3 +679,55 @@ Theorem C01_evex_addr16_disp8_refuted :
   fst (judge bucket wbucket row_of M32 id_vpabsq [OReg 6 0; OMem 16 0 2 3 2 6 0 16 0] (mkD false false false 0 0 false (-1)) [103; 98; 242; 253; 8; 31; 64; 1]) = 0.
 Proof. exact ex_evex_a16_disp8_refuted. Qed.
 Print Assumptions C01_evex_addr16_disp8_refuted.
+
+(* ------------------------------------------------------------------ round 7: sequence-level lifts *)
+(* the round trip for a BUFFER: the concatenated encodings of any list of well-formed instructions (each with its own shape, admissible
+   encoder choices and admissible prefix order), followed by any bytes, decode instruction by instruction to exactly the list, with the
+   instruction boundaries (lengths) and the trailing bytes *)
+Theorem C01_sdec_senc_stream : forall m l rest, forallb (item_ok m) l = true ->
+  sdec_stream m (map i_sh l) (senc_stream m l ++ rest) =
+  Some (map (fun i => (i_s i, length (senc_item m i))) l, rest).
+Proof. exact sdec_senc_stream. Qed.
+Print Assumptions C01_sdec_senc_stream.
+
+Theorem C01_stream_example :
+  let sh := mkSh true false 0 1 in
+  let s1 := mkS (mkP true false false true true 5) KLeg false false 0 false 0 0 0 1 0 false false (MMem 0 (mkM (BReg 3) None 0 0)) 0 in
+  let s2 := mkS (mkP false false false false false 0) KLeg false false 0 false 0 0 0 139 0 false false (MMem 1 (mkM (BReg 0) None 0 0)) 0 in
+  let l := [mkI sh s1 (mkC false 0 false) [240; 100; 103; 102]; mkI sh s2 (mkC false 0 false) []; mkI sh s2 (mkC false 2 true) []] in
+  forallb (item_ok M32) l = true /\
+  senc_stream M32 l = [240; 100; 103; 102; 1; 7; 139; 8; 139; 140; 32; 0; 0; 0; 0] /\
+  sdec_stream M32 [sh; sh; sh] (senc_stream M32 l ++ [144]) = Some ([(s1, 6%nat); (s2, 2%nat); (s2, 7%nat)], [144]).
+Proof. exact stream_example. Qed.
+Print Assumptions C01_stream_example.
+
+(* a buffer of JUDGED calls: when every call of a sequence was judged 0 on the bytes appended for it, then in the whole buffer (the
+   appended byte strings one after the other, followed by anything) the bytes at the position of each call -- i.e. after the bytes of the
+   calls before it -- have a reading that is that call (good_reading) and is exactly as long as its bytes: every call is read at its place
+   and the next one starts right after it, whatever the neighbours are *)
+Definition call_bytes (q : Z * list operand * deco * bytes) : bytes := snd q.
+Theorem C01_judged_stream : forall m (calls : list (Z * list operand * deco * bytes)) tail,
+  Forall (fun q => match q with (name, ops, dc, bs) => fst (judge bucket wbucket row_of m name ops dc bs) = 0 end) calls ->
+  forall l1 name ops dc bs l2, calls = l1 ++ (name, ops, dc, bs) :: l2 ->
+  exists c, good_reading row_of m name ops dc c = true /\ reading_len c = length bs /\
+            In c (denote2 bucket wbucket m (skipn (length (concat (map call_bytes l1))) (concat (map call_bytes calls) ++ tail))).
+Proof.
+  intros m calls tail Hall l1 name ops dc bs l2 E. subst calls.
+  rewrite Forall_forall in Hall.
+  assert (Hq : In (name, ops, dc, bs) (l1 ++ (name, ops, dc, bs) :: l2)) by (apply in_or_app; right; left; reflexivity).
+  specialize (Hall _ Hq). cbn in Hall.
+  destruct (C01_judged_call_in_stream m name ops dc bs Hall) as [c [Hg [Hl Hs]]].
+  exists c. repeat split; try assumption.
+  rewrite map_app, concat_app. cbn [map concat call_bytes snd]. rewrite <- !app_assoc.
+  rewrite skipn_app, Nat.sub_diag, skipn_all. cbn [skipn app]. apply Hs.
+Qed.
+Print Assumptions C01_judged_stream.
+
+(* non-vacuity: two judged calls (add rax, rcx; fstsw [eax] would need 32-bit mode, so twice the add) in one buffer followed by a stray byte *)
+Theorem C01_judged_stream_example :
+  let q := (id_add, [OReg 4 0; OReg 4 1], mkD false false false 0 0 false (-1), [72; 1; 200]) in
+  Forall (fun q => match q with (name, ops, dc, bs) => fst (judge bucket wbucket row_of M64 name ops dc bs) = 0 end) [q; q] /\
+  concat (map call_bytes [q; q]) ++ [144] = [72; 1; 200; 72; 1; 200; 144].
+Proof. split; [repeat constructor; exact ex_add_rax_rcx | reflexivity]. Qed.
+Print Assumptions C01_judged_stream_example.
+
